@@ -61,10 +61,27 @@ Proof. intros Hparse Hin. rewrite parse_pairs_unfold in Hparse. exact (parse_rep
 
 Lemma name_pair_run inp s e kids :
   replayable G inp (Pair R_Name s e kids) ->
-  exists f, run G f false AAtomic (r_exp (g_rule G R_Name)) (skipn (N.to_nat s) inp) s
-            = Ok (skipn (N.to_nat e) inp, e, kids).
+  (exists f, run G f false AAtomic (r_exp (g_rule G R_Name)) (skipn (N.to_nat s) inp) s
+             = Ok (skipn (N.to_nat e) inp, e, kids))
+  /\ s <= e /\ (N.to_nat e <= length inp)%nat.
 Proof.
-  intros Hrep. cbn [replayable] in Hrep. destruct Hrep as [f [a [Hrun _]]]. exists f. exact Hrun.
+  intros Hrep. cbn [replayable] in Hrep. destruct Hrep as [f [a [Hrun Hb]]]. split; [exists f; exact Hrun|exact Hb].
+Qed.
+
+Lemma name_start_not_terminator c : is_name_start c = true -> is_lt c = false.
+Proof.
+  intros H. unfold is_lt. apply orb_false_iff.
+  split; apply N.eqb_neq; intros ->; vm_compute in H; discriminate.
+Qed.
+
+Lemma at_pos_spec inp file off (f : str -> bool) :
+  no_lone_cr inp = true -> (N.to_nat off <= length inp)%nat ->
+  not_at_terminator (skipn (N.to_nat off) inp) ->
+  at_pos inp file (mkPos (fst (spec_line_col inp off)) (snd (spec_line_col inp off)) file false) f
+  = f (skipn (N.to_nat off) inp).
+Proof.
+  intros Hcr Hlen Hnt. unfold at_pos. cbn [pfile pbuiltin pline pcol]. rewrite N.eqb_refl.
+  rewrite (text_at_spec_line_col _ _ Hcr Hlen Hnt). reflexivity.
 Qed.
 
 (** ** every Name pair of the tree, on every input *)
@@ -75,10 +92,11 @@ Theorem name_pairs_true : forall inp start ps file s e kids,
   kids = [] /\
   name_at (skipn (N.to_nat s) inp) (iname (to_ident inp file p)) = true /\
   (no_lone_cr inp = true ->
-   ipos (to_ident inp file p) = mkPos (fst (spec_line_col inp s)) (snd (spec_line_col inp s)) file false).
+   ipos (to_ident inp file p) = mkPos (fst (spec_line_col inp s)) (snd (spec_line_col inp s)) file false
+   /\ ck_ident inp file (to_ident inp file p) = true).
 Proof.
   intros inp start ps file s e kids Hparse Hin p.
-  destruct (name_pair_run _ _ _ _ (parse_pairs_replay _ _ _ _ Hparse Hin)) as [f Hrun].
+  destruct (name_pair_run _ _ _ _ (parse_pairs_replay _ _ _ _ Hparse Hin)) as [[f Hrun] [Hse Hlen]].
   destruct (name_body_spec f (skipn (N.to_nat s) inp) s) as [E|E]; rewrite E in Hrun; [discriminate|].
   destruct (skipn (N.to_nat s) inp) as [|c rest] eqn:Esk; [discriminate|].
   destruct (is_name_start c) eqn:Hc; [|discriminate].
@@ -90,11 +108,19 @@ Proof.
   { unfold as_str, substr, p. cbn [pair_start pair_end]. rewrite Esk, <- He.
     replace (N.to_nat (s + 1 + N.of_nat (length u) - s)) with (length (c :: u)) by (cbn [length]; lia).
     rewrite Hrest. change (c :: u ++ v) with ((c :: u) ++ v). apply firstn_app_exact. }
-  split.
-  - cbn [to_ident iname]. rewrite Hstr. unfold name_at, is_name. rewrite Hc, Hu. cbn [andb].
+  assert (Hname : name_at (c :: rest) (c :: u) = true).
+  { unfold name_at, is_name. rewrite Hc, Hu. cbn [andb].
     rewrite Hrest. change (c :: u ++ v) with ((c :: u) ++ v). rewrite prefix_rest_app.
-    destruct v as [|d v']; [reflexivity|]. rewrite Hvhd. reflexivity.
-  - intros Hcr. cbn [to_ident ipos]. apply to_pos_true. exact Hcr.
+    destruct v as [|d v']; [reflexivity|]. rewrite Hvhd. reflexivity. }
+  split.
+  - cbn [to_ident iname]. rewrite Hstr. exact Hname.
+  - intros Hcr.
+    assert (Hpos : ipos (to_ident inp file p) = mkPos (fst (spec_line_col inp s)) (snd (spec_line_col inp s)) file false).
+    { cbn [to_ident ipos]. apply to_pos_true. exact Hcr. }
+    split; [exact Hpos|].
+    unfold ck_ident. rewrite Hpos. rewrite at_pos_spec; [| exact Hcr | lia |].
+    + rewrite Esk. cbn [to_ident iname]. rewrite Hstr. exact Hname.
+    + rewrite Esk. cbn [not_at_terminator]. apply name_start_not_terminator. exact Hc.
 Qed.
 
 (** ** keywords: every rule of the shape  @{ "word" ~ !NameContinue }  *)
@@ -129,7 +155,8 @@ Theorem keyword_pairs_true : forall inp start ps file r l s e kids,
   kw_name (to_keyword inp file p) = l /\
   (is_name l = true -> name_at (skipn (N.to_nat s) inp) l = true) /\
   (no_lone_cr inp = true ->
-   kw_pos (to_keyword inp file p) = mkPos (fst (spec_line_col inp s)) (snd (spec_line_col inp s)) file false).
+   kw_pos (to_keyword inp file p) = mkPos (fst (spec_line_col inp s)) (snd (spec_line_col inp s)) file false
+   /\ (is_name l = true -> ck_kw inp file (kw_pos (to_keyword inp file p)) l = true)).
 Proof.
   intros inp start ps file r l s e kids Hparse Hin Hkw p.
   pose proof (parse_pairs_replay _ _ _ _ Hparse Hin) as Hrep. cbn [replayable] in Hrep.
@@ -152,10 +179,17 @@ Proof.
   assert (Hstr : as_str inp p = l).
   { unfold as_str, substr, p. cbn [pair_start pair_end]. rewrite Hsk', <- He. unfold slen.
     replace (N.to_nat (s + N.of_nat (length l) - s)) with (length l) by lia. apply firstn_app_exact. }
-  split; [exact Hstr|]. split.
-  - intros Hn. unfold name_at. rewrite Hn, Hsk', prefix_rest_app. cbn [andb].
-    destruct rest as [|d r']; [reflexivity|]. rewrite Hnext. reflexivity.
-  - intros Hcr. cbn [to_keyword kw_pos]. apply to_pos_true. exact Hcr.
+  assert (Hname : is_name l = true -> name_at (skipn (N.to_nat s) inp) l = true).
+  { intros Hn. unfold name_at. rewrite Hn, Hsk', prefix_rest_app. cbn [andb].
+    destruct rest as [|d r']; [reflexivity|]. rewrite Hnext. reflexivity. }
+  split; [exact Hstr|]. split; [exact Hname|].
+  intros Hcr.
+  assert (Hpos : kw_pos (to_keyword inp file p) = mkPos (fst (spec_line_col inp s)) (snd (spec_line_col inp s)) file false).
+  { cbn [to_keyword kw_pos]. apply to_pos_true. exact Hcr. }
+  split; [exact Hpos|]. intros Hn.
+  unfold ck_kw. rewrite Hpos. rewrite at_pos_spec; [exact (Hname Hn) | exact Hcr | lia |].
+  rewrite Hsk'. destruct l as [|c0 l0]; [discriminate Hn|]. cbn [app not_at_terminator].
+  apply name_start_not_terminator. unfold is_name in Hn. apply andb_true_iff in Hn. tauto.
 Qed.
 
 (** non-vacuity: the 21 keyword rules of the grammar all have that shape, with these words *)
@@ -171,3 +205,30 @@ Example keyword_rules_covered :
      s "schema"; s "scalar"; s "type"; s "implements"; s "interface"; s "union"; s "enum"; s "input"; s "directive";
      s "repeatable"; s "import"; s "from"].
 Proof. vm_compute. reflexivity. Qed.
+
+(** ** every pair, of any rule: its text is where its reported position says *)
+Lemma prefix_rest_firstn : forall n t, prefix_rest (firstn n t) t = Some (skipn n t).
+Proof.
+  induction n as [|n IH]; intros t; [reflexivity|]. destruct t as [|c t]; [reflexivity|].
+  cbn [firstn skipn prefix_rest]. rewrite N.eqb_refl. apply IH.
+Qed.
+
+Lemma replayable_bounds inp (p : pr) :
+  replayable G inp p -> pair_start p <= pair_end p /\ (N.to_nat (pair_end p) <= length inp)%nat.
+Proof. destruct p as [r s e kids]. cbn [replayable pair_start pair_end]. intros [f [a [_ Hb]]]. exact Hb. Qed.
+
+(** The builder takes a node's text ([as_str]) and its position ([to_pos]) from one and the same pair.
+    For every pair of the tree, whatever its rule: at the reported (line, column) -- read with the
+    specification's line terminators -- the input continues with exactly that pair's text. *)
+Theorem pair_text_at_position : forall inp start ps (p : pr) file,
+  parse_pairs start inp = Ok ps ->
+  in_forest p ps ->
+  no_lone_cr inp = true ->
+  not_at_terminator (skipn (N.to_nat (pair_start p)) inp) ->
+  at_pos inp file (to_pos inp file p) (fun t => punct_at t (as_str inp p)) = true.
+Proof.
+  intros inp start ps p file Hparse Hin Hcr Hnt.
+  destruct (replayable_bounds _ _ (parse_pairs_replay _ _ _ _ Hparse Hin)) as [Hse Hlen].
+  rewrite (to_pos_true _ file p Hcr). rewrite at_pos_spec; [| exact Hcr | lia | exact Hnt].
+  unfold punct_at, as_str, substr. rewrite prefix_rest_firstn. reflexivity.
+Qed.
